@@ -82,6 +82,38 @@ def _unguard(stmts):
     return stmts
 
 
+def _always_returns(stmts) -> bool:
+    if not stmts:
+        return False
+    last = stmts[-1]
+    if isinstance(last, ast.Return):
+        return True
+    return isinstance(last, ast.If) and _always_returns(last.body) and _always_returns(last.orelse)
+
+
+def _return_tree(stmts):
+    """a body made of nothing but guarded returns (``if c: return a`` ... ``return z``; assertions aside) as the one
+    expression ``a if c else ... z``, or None"""
+    stmts = [st for st in stmts if not isinstance(st, (ast.Assert, ast.Pass))]
+    if not stmts:
+        return None
+    st = stmts[0]
+    if isinstance(st, ast.Return):
+        return st.value
+    if isinstance(st, ast.If):
+        rest = stmts[1:]
+        if _always_returns(st.body):
+            a, b = _return_tree(st.body), _return_tree(list(st.orelse) + rest)
+        elif _always_returns(st.orelse):
+            a, b = _return_tree(list(st.body) + rest), _return_tree(st.orelse)
+        else:
+            return None
+        if a is None or b is None:
+            return None
+        return ast.copy_location(ast.IfExp(test=st.test, body=a, orelse=b), st)
+    return None
+
+
 class _Helper:
     def __init__(self, qn, node, owner_class):
         self.qn = qn
@@ -101,6 +133,10 @@ class _Helper:
                 self.defaults[k.arg] = d
         self.varargs = a.vararg is not None or a.kwarg is not None
         self.body = _unguard(_strip_doc(node.body))
+        if len(self.body) > 1 or (self.body and isinstance(self.body[0], ast.If)):
+            tree = _return_tree(self.body)
+            if tree is not None:
+                self.body = [ast.copy_location(ast.Return(value=tree), self.body[0])]
         self.bound_first = owner_class is not None and not self.is_static      # self / cls
 
     def usable(self) -> bool:
